@@ -88,7 +88,7 @@ func cmdCheck(prop, tier string) int {
 	}
 	byMod := map[string][]*Contract{}
 	for _, c := range db.Contracts {
-		if c.Extern {
+		if c.Extern || c.Trusted != "" {
 			continue
 		}
 		has := false
@@ -148,24 +148,27 @@ func cmdCheck(prop, tier string) int {
 			var lmu sync.Mutex
 			sem := make(chan struct{}, 8)
 			for _, c := range cs {
-				fn := eng.fnIndex[c.Pkg+"::"+c.Name]
-				if fn == nil {
+				fns := eng.targets(c)
+				if len(fns) == 0 {
 					lmu.Lock()
 					missing = append(missing, c.Pkg+"::"+c.Name)
 					lmu.Unlock()
 					continue
 				}
-				c := c
-				lwg.Add(1)
-				sem <- struct{}{}
-				go func() {
-					defer lwg.Done()
-					defer func() { <-sem }()
-					fr := eng.verifyFunc(fn, c)
-					lmu.Lock()
-					local = append(local, fr)
-					lmu.Unlock()
-				}()
+				for _, fn := range fns {
+					fn := fn
+					c := c
+					lwg.Add(1)
+					sem <- struct{}{}
+					go func() {
+						defer lwg.Done()
+						defer func() { <-sem }()
+						fr := eng.verifyFunc(fn, c)
+						lmu.Lock()
+						local = append(local, fr)
+						lmu.Unlock()
+					}()
+				}
 			}
 			lwg.Wait()
 			frMu.Lock()
@@ -326,6 +329,23 @@ func cmdCheck(prop, tier string) int {
 						lbl = k
 					}
 					mv[lbl] = v
+				}
+				// a smaller counterexample for replay, if the contract gives replay bounds
+				if len(f.fr.VC.replayBounds) > 0 && f.o.Script != "" {
+					sc := f.o.Script
+					for _, b := range f.fr.VC.replayBounds {
+						sc += "(assert " + b + ")\n"
+					}
+					if r2, _ := runSolvers(sc, f.fr.VC.modelVals, 10, false); r2.Status == "sat" {
+						mv = map[string]string{}
+						for k, v := range r2.Model {
+							lbl := f.fr.VC.modelLbl[k]
+							if lbl == "" {
+								lbl = k
+							}
+							mv[lbl] = v
+						}
+					}
 				}
 				rec["model"] = mv
 				if ok, out, test := tryReplay(f.fr, f.o, mv); test != "" {
